@@ -836,31 +836,73 @@ func loadsCmd(args []string) error {
 			return err
 		}
 		type job struct {
-			it  item
-			cut int
-			s   obs.Sched
+			it    item
+			cut   int
+			s     obs.Sched
+			shape string // "" = rotate
 		}
 		var jobs []job
+		// the product presentation x delivery x (EOF alone / together with the last bytes) of
+		// spec/Usage.tla on a few files of every kind: auto-detection may depend on none of it
+		if *usagePath != "" {
+			raw, err := os.ReadFile(*usagePath)
+			if err != nil {
+				return err
+			}
+			seen := map[string]bool{}
+			perFmt := map[string]int{}
+			var pick []item
+			for _, it := range items {
+				if it.Tail == 0 && len(it.Data) > 40 && len(it.Data) < 20000 && perFmt[it.Fmt] < 2 {
+					perFmt[it.Fmt]++
+					pick = append(pick, it)
+				}
+			}
+			for _, l := range strings.Split(strings.TrimSpace(string(raw)), "\n") {
+				var u struct{ P, D, F string }
+				if err := json.Unmarshal([]byte(l), &u); err != nil {
+					return err
+				}
+				if strings.HasPrefix(u.F, "ioerr") || seen[u.P+u.D+u.F] {
+					continue
+				}
+				seen[u.P+u.D+u.F] = true
+				var k int
+				fmt.Sscanf(u.D, "fixed%d", &k)
+				sc := obs.Sched{Name: u.D + "/" + u.F, WithErr: strings.HasSuffix(u.F, "-with-data")}
+				if k > 0 {
+					sc.Sizes, sc.Cyclic = []int{k}, true
+				}
+				for _, it := range pick {
+					for _, cut := range []int{len(it.Data) / 2, len(it.Data)} {
+						jobs = append(jobs, job{it, cut, sc, u.P})
+					}
+				}
+			}
+		}
 		for k, it := range items {
 			if it.Tail > 0 {
 				continue
 			}
-			jobs = append(jobs, job{it, len(it.Data), obs.Full})
-			jobs = append(jobs, job{it, len(it.Data), obs.Sched{Name: "fixed3", Sizes: []int{3}, Cyclic: true}})
+			jobs = append(jobs, job{it: it, cut: len(it.Data), s: obs.Full})
+			jobs = append(jobs, job{it: it, cut: len(it.Data), s: obs.Sched{Name: "fixed3", Sizes: []int{3}, Cyclic: true}})
 			cuts := cutsFor(it, "quick", rng)
 			step := 7
 			if *tier == "thorough" {
 				step = 1
 			}
 			for ci := k % step; ci < len(cuts); ci += step {
-				jobs = append(jobs, job{it, cuts[ci], obs.Full})
+				jobs = append(jobs, job{it: it, cut: cuts[ci], s: obs.Full})
 			}
 		}
 		parallel(len(jobs), func(i int) {
 			j := jobs[i]
 			// all four loaders see the same presentation of the source (plain, or the way
 			// *bytes.Reader / *os.File present themselves, at offset 0 or embedded after foreign bytes)
-			shape := []string{"plain", "rich5", "rich0"}[i%3]
+			shape := j.shape
+			if shape == "" {
+				shape = []string{"plain", "rich5", "rich0"}[i%3]
+			}
 			ev := map[string]interface{}{"item": j.it.Name, "n": len(j.it.Data), "cut": j.cut, "sched": j.s.Name, "shape": shape}
 			for _, loader := range obs.LoaderNames {
 				src := obs.NewSource(j.it.Data, j.cut, nil, j.s).WithShape(shape)
